@@ -215,5 +215,7 @@ def make_body(job):
       gevent.sleep(150)
       late = [t for t in ep.attempts if bool(t > t_close)]
       check('close.no-reconnect-after-close', not late)
+      # ... and nothing stays connected: a connect attempt that was in flight when the client was closed is abandoned
+      check('close.no-connection-left-open', all(s_.closed for s_ in ep.conns))
     check('no-greenlet-error', not vtime.ERRORS)
   return body
